@@ -17,4 +17,5 @@ Definition c02_model_ok (c : c02case) : bool :=
   | ArrayItems _ l out => list_eqb Z.eqb out (ok_list (arr_to_list (arr_of_list l)))
   | Pickle false t out => rz_eqb out (do x <- td_from_ticks t; td_unpickle x)
   | Pickle true t out => rz_eqb out (do x <- dt_from_ticks t; dt_unpickle x)
+  | PickleInt _ _ => c02_spec_ok c
   end.
